@@ -63,7 +63,9 @@ using T17 = cb::clamp<cb::affine<cb::linear<cb::morton<sz<2>, arr<float, 2>>>>>;
 using T18 = cb::clamp<cb::affine<cb::nearest_neighbour<cb::morton<sz<2>, arr<double, 2>>>>>;
 using T19 = cb::affine<cb::nearest_neighbour<cb::strided<sz<1>, arr<double, 1>>, cv::vector_d<double, 1>>>;
 using T20 = cb::backup<cb::linear<cb::strided<sz<1>, arr<float, 2>>>>;
-using catalogue = std::tuple<T1, T2, T3, T4, T5, T6, T7, T8, T9, T10, T11, T12, T13, T14, T15, T16, T17, T18, T19, T20>;
+using T21 = cb::affine<cb::nearest_neighbour<cb::strided<sz<3>, arr<float, 1>>, cv::vector_d<double, 3>>>;   // 96-byte configuration
+using T22 = cb::affine<cb::linear<cb::strided<sz<4>, arr<float, 1>>>>;                                       // 80-byte configuration
+using catalogue = std::tuple<T1, T2, T3, T4, T5, T6, T7, T8, T9, T10, T11, T12, T13, T14, T15, T16, T17, T18, T19, T20, T21, T22>;
 constexpr std::size_t NTYPES = std::tuple_size_v<catalogue>;
 
 // ------------------------------------------------------------------ bytes <-> limbs
